@@ -36,7 +36,7 @@ fn op(n: u8) -> BoxedStrategy<Op> {
     ];
     prop_oneof![
         2 => (0u8..4, any::<[u16; 3]>()).prop_map(|(user, k)| Op::Provide { user, k }),
-        2 => (0u8..4, any::<u16>()).prop_map(|(user, k)| Op::Withdraw { user, k }),
+        2 => (0u8..4, gen::share_sel()).prop_map(|(user, k)| Op::Withdraw { user, k }),
         1 => (0u8..4, 0..n, a.clone()).prop_map(|(user, which, amt)| Op::Donate { user, which, amt }),
         1 => Just(Op::Collect),
         1 => gen::small_fee_triple().prop_map(|f| Op::SetFees { fees: [Uint128::new(f[0]), Uint128::new(f[1]), Uint128::new(f[2])] }),
